@@ -354,7 +354,9 @@ func init() {
 				add("always-k2-rot", merge(base, p("k", 2, "ops", opPut|opDelete, "sync", syncAlways, "dfs_lo", 60, "dfs_hi", 100)))
 				add("threshold-k3", merge(base, p("k", 3, "ops", opPut|opDelete, "sync", syncThreshold, "vlens", 1)))
 				add("batch-k1", merge(base, p("k", 1, "ops", opBatch, "vlens", 1)))
+				add("mmap-process-death-k2", merge(base, p("k", 2, "ops", opPut|opDelete, "io", 1, "powerloss", 0, "after", 1, "dfs_lo", 60, "dfs_hi", 100)))
 			} else {
+				add("mmap-process-death-k3", merge(base, p("k", 3, "ops", opPut|opDelete|opBatch, "io", 1, "powerloss", 0, "after", 1, "dfs_lo", 60, "dfs_hi", 100)))
 				add("nosync-k3", merge(base, p("k", 3, "ops", opPut|opDelete|opSync, "after", 1, "dfs_lo", 60, "dfs_hi", 120)))
 				add("always-k3-rot", merge(base, p("k", 3, "ops", opPut|opDelete, "sync", syncAlways, "vlens", 3, "vbig", 25, "dfs_lo", 60, "dfs_hi", 120)))
 				add("threshold-k3", merge(base, p("k", 3, "ops", opPut|opDelete|opSync, "sync", syncThreshold)))
@@ -366,7 +368,7 @@ func init() {
 		},
 		Assumptions: []string{"crash points: before every mutating file-system call issued after Open (create, write, sync, close, truncate, rename, remove) and after the last one",
 			"power loss keeps a prefix of every file: a solver-chosen length between the last synced length and the current length; no garbage, no reordering; directory operations are durable in issue order",
-			"standard I/O only: the mmap back-end's unsynced-page loss is not modelled (its process-death image is covered by C20/C02)",
+			"mmap back-end: process death only (the zero-extended files are what recovery sees); loss of unsynced mapped pages on power failure is not modelled",
 			"blockSize scaled to 32 (Level 1)"},
 		Bounds: map[string]string{
 			"quick":    "K=2-3 mutations over {Put,Delete,Sync,batch<=2}, pool of 2 symbolic keys, value lengths {0,1}, SyncStrategy No/Always/Threshold (BytesPerSync symbolic), rotation by symbolic DataFileSize; crash before every FS op; process death and power loss with every tail length; one more Put + clean restart after recovery",
@@ -594,6 +596,42 @@ func init() {
 			"thorough": "<= 4 preemptions",
 		},
 		Outside: "other processes, NFS, kernel flock semantics, GC finalizers closing leaked descriptors",
+		Stubs:   stubsCommon,
+	})
+}
+
+func init() {
+	// real data-file geometry (32 KiB blocks), mmap granule scaled to two real pages, model page size = 4096
+	scaleMmap := map[string]string{"fio/mmap.go:blockSize": "8192"}
+	register(&CheckDef{
+		ID:    "C20",
+		Title: "A backup taken at any time opens to the state at the time of the backup",
+		Reach: []string{"done", "small-put-after-backup", "big-put-after-backup", "second-backup", "rotated", "batch-committed", "merged", "restarted"},
+		Jobs: func(tier string) []JobSpec {
+			var js []JobSpec
+			add := func(name string, params map[string]int64) {
+				js = append(js, JobSpec{Name: name, Harness: "root", Func: "verifHarnessC20", Params: params, Scale: scaleMmap, PageSize: 4096})
+			}
+			base := p("pool", 2, "klen", 1, "vlens", 1, "index", 3, "shards", 1, "bigval", 5000)
+			k := 2
+			if tier == "thorough" {
+				k = 3
+			}
+			add("mmap", merge(base, p("k", k, "ops", opPut|opDelete, "io", 1)))
+			add("mmap-twice-rot", merge(base, p("k", k, "ops", opPut|opDelete, "io", 1, "twice", 1, "dfs_lo", 100, "dfs_hi", 100)))
+			add("std-batch", merge(base, p("k", k, "ops", opPut|opDelete|opBatch, "bmax", 1, "io", 0, "twice", 1)))
+			add("mmap-merge-restart-btree", merge(base, p("k", k+1, "ops", opPut|opMerge|opRestart, "io", 1, "index", 1)))
+			js = append(js, JobSpec{Name: "witness", Harness: "root", Func: "verifHarnessC20", Params: merge(base, p("k", 1, "ops", opPut, "io", 1, "witness", 1)), Scale: scaleMmap, PageSize: 4096, Witness: true})
+			return js
+		},
+		Assumptions: []string{"mmap view model: a mapping aliases the file's bytes below its current size; bytes between the size and the end of its last 4096-byte page are scratch (visible through the mapping, never in the file, zeroed when the file grows over them); touching a page wholly beyond the size is SIGBUS (verified against the sandbox kernel at design time)",
+			"real 32 KiB data-file blocks; the 512 MiB mmap granule is scaled to 8192 bytes (two pages) so that a 5000-byte value written after a truncation crosses a page; use-after-Unmap is not modelled",
+			"I/O never fails"},
+		Bounds: map[string]string{
+			"quick":    "K=2 ops (Put/Delete/batch/Merge+restart) on 2 symbolic keys, Backup, then nothing / a 1-byte Put / a 5000-byte Put, optional second Backup; the copy is opened while the source is open and compared with the state at backup time; the source is compared with the model live and after a restart; std and mmap",
+			"thorough": "K=3",
+		},
+		Outside: "backups racing with writers (Backup holds the write lock); histories longer than K; the real 512 MiB granule",
 		Stubs:   stubsCommon,
 	})
 }
